@@ -229,7 +229,7 @@ fn build_partial_eq_body(
         }
     };
     Ok(quote! {
-        fn eq(&self, __other: &Self) -> bool {
+        fn eq(&self, __other: &Self) -> ::core::primitive::bool {
             #body
         }
     })
@@ -251,7 +251,7 @@ fn build_partial_eq_expr(
     let build_expr_by_eq = |by: &Expr| {
         quote! {
             {
-                fn #fn_ident<__T: ?::core::marker::Sized>(__this: &__T, __other: &__T, __eq: impl ::core::ops::Fn(&__T, &__T) -> bool) -> bool {
+                fn #fn_ident<__T: ?::core::marker::Sized>(__this: &__T, __other: &__T, __eq: impl ::core::ops::Fn(&__T, &__T) -> ::core::primitive::bool) -> ::core::primitive::bool {
                     __eq(__this, __other)
                 }
                 #fn_ident(&#this, &#other, #by)
@@ -278,7 +278,7 @@ fn build_partial_eq_expr(
     if let Some(by) = &cmp.partial_ord.by {
         return Ok(quote! {
             {
-                fn #fn_ident<__T: ?::core::marker::Sized>(__this: &__T, __other: &__T, __partial_cmp: impl ::core::ops::Fn(&__T, &__T) -> ::core::option::Option<::core::cmp::Ordering>) -> bool {
+                fn #fn_ident<__T: ?::core::marker::Sized>(__this: &__T, __other: &__T, __partial_cmp: impl ::core::ops::Fn(&__T, &__T) -> ::core::option::Option<::core::cmp::Ordering>) -> ::core::primitive::bool {
                     __partial_cmp(__this, __other) == ::core::option::Option::Some(::core::cmp::Ordering::Equal)
                 }
                 #fn_ident(&#this, &#other, #by)
@@ -293,7 +293,7 @@ fn build_partial_eq_expr(
     if let Some(by) = &field.hattrs.cmp.ord.by {
         return Ok(quote! {
             {
-                fn #fn_ident<__T: ?::core::marker::Sized>(__this: &__T, __other: &__T, __cmp: impl ::core::ops::Fn(&__T, &__T) -> ::core::cmp::Ordering) -> bool {
+                fn #fn_ident<__T: ?::core::marker::Sized>(__this: &__T, __other: &__T, __cmp: impl ::core::ops::Fn(&__T, &__T) -> ::core::cmp::Ordering) -> ::core::primitive::bool {
                     __cmp(__this, __other) == ::core::cmp::Ordering::Equal
                 }
                 #fn_ident(&#this, &#other, #by)
@@ -1128,7 +1128,7 @@ fn build_to_index_fn(variants: &[VariantEntry]) -> TokenStream {
         arms.push(quote!((#pat) => #index,));
     }
     quote! {
-        let __to_index = |__this: &Self| -> usize {
+        let __to_index = |__this: &Self| -> ::core::primitive::usize {
             match __this {
                 #(#arms)*
                 _ => ::core::unreachable!(),
